@@ -1,16 +1,31 @@
 package redact
 
-// Replay/search harness for C11 (injected with -overlay, never written into /repo).
-// It drives the real public API with the values named by a refuted obligation's
-// model (REPLAY_HINTS) plus a fixed set of edge values and reports the first
-// call that panics.
+// Replay/search and bounded harness for C11 (injected with -overlay, never written into /repo).
+//
+// TestVerifReplayC11 drives the real public API with the values named by a refuted obligation's
+// model (REPLAY_HINTS) plus a fixed set of edge values and reports every call that panics.
+//
+// TestVerifBoundedC11 is a systematic bounded sweep of the printing / writing / building / joining
+// API for run-time panics and lost output. Every call runs under recover(). The oracle comes from the
+// property statement: a call must not panic (the only panic that may propagate is one raised while
+// printing a panic payload, as in fmt: when in doubt the same call is given to fmt and only a panic
+// that fmt does not raise is flagged), text before and after the operand must be intact, a panic of
+// a user method is reported in place as %!verb(PANIC=...) with its payload inside an envelope.
 
 import (
+	"bytes"
 	"encoding/json"
+	"errors"
 	"fmt"
+	"io"
+	"math"
 	"os"
+	"reflect"
 	"strconv"
+	"strings"
 	"testing"
+	"unicode/utf8"
+	"unsafe"
 
 	"github.com/cockroachdb/redact/builder"
 	i "github.com/cockroachdb/redact/interfaces"
@@ -60,16 +75,866 @@ func TestVerifReplayC11(t *testing.T) {
 			_, _ = HelperForErrorf(f, fmt.Errorf("e"), 1)
 		}})
 	}
+	// Wide zero padding / precision of integers: the digits are produced in a scratch buffer whose
+	// size is derived from width and precision.
+	for _, f := range []string{"%069d", "%+069d", "% 070d", "%#067x", "%#067X", "%#067b", "%067O", "%#0100o", "%0100d", "%.100d", "%#.100x",
+		"%+0200d", "%#0200b", "%0*d", "%#0*x", "%+.*d", "%0300U", "%#.300U", "%0300c", "%0300q", "%#+0300v"} {
+		f := f
+		for _, v := range []interface{}{7, -7, int64(math.MinInt64), uint64(math.MaxUint64), uint8(200), SafeInt(-1)} {
+			v := v
+			cases = append(cases, c11case{fmt.Sprintf("Sprintf(%q, [150,] %#v)", f, v), func() {
+				if strings.Contains(f, "*") {
+					_ = Sprintf(f, 150, v)
+					var b builder.StringBuilder
+					b.Printf(f, 150, v)
+					return
+				}
+				_ = Sprintf(f, v)
+				var b builder.StringBuilder
+				b.Printf(f, Safe(v))
+				_ = Sprintfn(func(w SafePrinter) { w.Printf(f, v) })
+			}})
+		}
+	}
+	fails := 0
 	for _, c := range cases {
 		func() {
 			defer func() {
-				if r := recover(); r != nil {
-					out, _ := json.Marshal(map[string]string{"call": c.name, "panic": fmt.Sprint(r)})
+				if r := recover(); r != nil && fails < 12 {
+					fails++
+					out, _ := json.Marshal(map[string]string{"property": "C11", "call": c.name, "output": fmt.Sprintf("%q", "panic: "+fmt.Sprint(r)),
+						"panic": fmt.Sprint(r), "why": "a printing/writing/building/joining call panicked"})
 					fmt.Printf("REPLAY-FAIL: %s\n", out)
 					t.Errorf("%s panicked: %v", c.name, r)
 				}
 			}()
 			c.f()
 		}()
+	}
+}
+
+// ---------------------------------------------------------------------------------------------
+// Bounded sweep.
+
+type c11Rep struct {
+	t     *testing.T
+	fails int
+}
+
+func (r *c11Rep) full() bool { return r.fails >= 8 }
+
+func (r *c11Rep) fail(call, out, why string) {
+	r.fails++
+	if r.fails > 8 {
+		return
+	}
+	if len(out) > 400 {
+		out = out[:200] + "...(" + strconv.Itoa(len(out)) + " bytes)..." + out[len(out)-150:]
+	}
+	m, _ := json.Marshal(map[string]string{"property": "C11", "call": call, "output": fmt.Sprintf("%q", out), "why": why})
+	fmt.Printf("REPLAY-FAIL: %s\n", m)
+	r.t.Errorf("%s: %s: %q", call, why, out)
+}
+
+func c11Bounded(law string, cases, nontrivial int, rule, bound string, ok bool) {
+	m, _ := json.Marshal(map[string]interface{}{"property": "C11", "law": law, "cases": cases, "nontrivial": nontrivial,
+		"nontrivial_rule": rule, "bound": bound, "exhaustive": ok})
+	fmt.Printf("BOUNDED: %s\n", m)
+}
+
+// c11Try runs f under recover.
+func c11Try(f func()) (pv interface{}, panicked bool) {
+	panicked = true
+	defer func() {
+		if panicked {
+			pv = recover()
+		}
+	}()
+	f()
+	panicked = false
+	return
+}
+
+func c11DelMarkers(s string) string {
+	return strings.ReplaceAll(strings.ReplaceAll(s, vS, ""), vE, "")
+}
+
+func c11EscMarkers(s string) string {
+	return strings.ReplaceAll(strings.ReplaceAll(s, vS, "?"), vE, "?")
+}
+
+// c11Norm: content of an output up to the characters the library is allowed to add or substitute
+// (delimiters, and '?' as the escape of a marker / the guard after a partial UTF-8 sequence).
+func c11Norm(s string) string {
+	return strings.ReplaceAll(c11DelMarkers(s), "?", "")
+}
+
+// c11Inside reports whether byte position pos of s lies inside an envelope.
+func c11Inside(s string, pos int) bool {
+	open := false
+	for j := 0; j+3 <= len(s) && j < pos; j++ {
+		switch s[j : j+3] {
+		case vS:
+			open = true
+		case vE:
+			open = false
+		}
+	}
+	return open
+}
+
+func c11Thorough() bool { return os.Getenv("VERIF_TIER") == "thorough" }
+
+// ---- user types whose methods panic ----------------------------------------------------------
+
+// c11Invoked counts the invocations of the user methods below (single-threaded harness).
+var c11Invoked int
+
+// c11Raise describes how a user method panics.
+type c11Raise struct {
+	name       string
+	f          func()
+	text       string // fmt's rendering of the payload (what must appear, escaped, in the report)
+	propagates bool   // printing the payload panics itself: the statement lets this propagate
+	lenient    bool   // only "no panic / text intact" is checked (payloads that declare themselves safe, panic(nil))
+}
+
+type c11PString struct{ r *c11Raise }
+
+func (p *c11PString) String() string { c11Invoked++; p.r.f(); return "unreachable" }
+
+type c11VString struct{ r *c11Raise }
+
+func (p c11VString) String() string { c11Invoked++; p.r.f(); return "unreachable" }
+
+type c11PError struct{ r *c11Raise }
+
+func (p *c11PError) Error() string { c11Invoked++; p.r.f(); return "unreachable" }
+
+type c11PFormat struct{ r *c11Raise }
+
+func (p *c11PFormat) Format(fmt.State, rune) { c11Invoked++; p.r.f() }
+
+type c11PGoString struct{ r *c11Raise }
+
+func (p *c11PGoString) GoString() string { c11Invoked++; p.r.f(); return "unreachable" }
+
+type c11PSafeFormat struct{ r *c11Raise }
+
+func (p *c11PSafeFormat) SafeFormat(SafePrinter, rune) { c11Invoked++; p.r.f() }
+
+type c11PSafeMessage struct{ r *c11Raise }
+
+func (p *c11PSafeMessage) SafeMessage() string { c11Invoked++; p.r.f(); return "unreachable" }
+
+// partial output, then panic
+type c11PFormatPartial struct{ r *c11Raise }
+
+func (p *c11PFormatPartial) Format(s fmt.State, _ rune) {
+	c11Invoked++
+	_, _ = io.WriteString(s, "fp")
+	_, _ = s.Write([]byte("fq"))
+	p.r.f()
+}
+
+type c11PSafeFormatPartial struct{ r *c11Raise }
+
+func (p *c11PSafeFormatPartial) SafeFormat(w SafePrinter, _ rune) {
+	c11Invoked++
+	w.SafeString("sp")
+	w.UnsafeString("up")
+	w.Printf("%d-%s", 42, "n")
+	w.Print(Safe("q"))
+	p.r.f()
+}
+
+// a SafeFormatter that contains a panicking operand and goes on writing
+type c11SFOuter struct{ inner interface{} }
+
+func (p c11SFOuter) SafeFormat(w SafePrinter, _ rune) {
+	w.SafeString("o1")
+	w.Print(p.inner)
+	w.SafeString("o2")
+	w.Printf("%v", p.inner)
+	w.UnsafeString("o3")
+}
+
+// c11SFAll calls every SafePrinter method with edge values; it inherits the flags, width and
+// precision of the directive it is printed with.
+type c11SFAll struct{}
+
+func (c11SFAll) SafeFormat(w SafePrinter, verb rune) {
+	for _, c := range []int{'+', '-', '#', ' ', '0', 0, -1, 'x', math.MaxInt32, math.MinInt64} {
+		_ = w.Flag(c)
+	}
+	_, _ = w.Width()
+	_, _ = w.Precision()
+	w.SafeInt(math.MinInt64)
+	w.SafeInt(0)
+	w.SafeUint(math.MaxUint64)
+	w.SafeFloat(SafeFloat(math.NaN()))
+	w.SafeFloat(SafeFloat(math.Copysign(0, -1)))
+	w.SafeFloat(-1e300)
+	w.SafeFloat(SafeFloat(math.Inf(-1)))
+	w.SafeRune(0xD800)
+	w.SafeRune(-1)
+	w.SafeRune(0x2039)
+	w.SafeByte(0xe2)
+	w.SafeBytes(nil)
+	w.SafeBytes([]byte("\x80\xb9"))
+	w.SafeString("")
+	w.UnsafeString("")
+	w.UnsafeString("\xe2\x80")
+	w.UnsafeByte(0xb9)
+	w.UnsafeBytes(nil)
+	w.UnsafeBytes([]byte{0xff})
+	w.UnsafeRune(-1)
+	w.UnsafeRune(0x110000)
+	w.Print()
+	w.Print(nil)
+	w.Print(nil, nil)
+	w.Printf("")
+	w.Printf("%")
+	w.Printf("%*d", 100000, 1)
+	w.Printf("%[3]*.[2]*[1]f", 12.0, 2, 6)
+	_, _ = w.Write(nil)
+	_, _ = w.Write([]byte("\xe2\x80\xb9\n"))
+	_, _ = io.WriteString(w, "\xba")
+	w.SafeRune(SafeRune(verb))
+}
+
+// c11FmtAll does the same through fmt.State only (fmt.Formatter).
+type c11FmtAll struct{}
+
+func (c11FmtAll) Format(s fmt.State, verb rune) {
+	for _, c := range []int{'+', '-', '#', ' ', '0', 0, -1, math.MaxInt32} {
+		_ = s.Flag(c)
+	}
+	_, _ = s.Width()
+	_, _ = s.Precision()
+	_, _ = s.Write(nil)
+	_, _ = s.Write([]byte("w\xe2"))
+	_, _ = io.WriteString(s, "\x80\xb9x")
+	_, _ = fmt.Fprintf(s, "%c|%*d", verb, -20, 5)
+	if sp, ok := s.(SafePrinter); ok {
+		sp.SafeRune(SafeRune(verb))
+	}
+}
+
+type c11Err struct{ s string }
+
+func (e *c11Err) Error() string { return e.s }
+
+type c11ValErr struct{ s string }
+
+func (e c11ValErr) Error() string { return e.s }
+
+type c11Unexp struct {
+	a int
+	b string
+	c interface{}
+	d *int
+	e error
+	f fmt.Stringer
+	g []byte
+	h map[string]interface{}
+	j func()
+	k chan int
+	l [2]byte
+	m RedactableString
+	n SafeString
+}
+
+type c11Exp struct {
+	A interface{}
+	B fmt.Stringer
+	C error
+	D *c11Exp
+	E []interface{}
+	F map[interface{}]interface{}
+}
+
+type c11SafeInt int
+
+func (c11SafeInt) SafeValue() {}
+
+type c11State struct {
+	wid, prec   int
+	widOk, pOk  bool
+	flags       string
+	bytes.Buffer
+}
+
+func (s *c11State) Width() (int, bool)     { return s.wid, s.widOk }
+func (s *c11State) Precision() (int, bool) { return s.prec, s.pOk }
+func (s *c11State) Flag(c int) bool        { return c >= 0 && c < 128 && strings.IndexByte(s.flags, byte(c)) >= 0 }
+
+type c11ErrWriter struct{ n int }
+
+func (w *c11ErrWriter) Write(p []byte) (int, error) {
+	if len(p) > w.n {
+		return w.n, errors.New("short")
+	}
+	return len(p), nil
+}
+
+var _ = unsafe.Pointer(nil)
+var _ = reflect.ValueOf
+var _ = utf8.RuneError
+
+// ---- operands --------------------------------------------------------------------------------
+
+type c11Op struct {
+	name     string // Go-like text of the operand
+	v        interface{}
+	plainInt bool // integer operand without methods: the rendering is compared with fmt's
+	fmtRef   bool // fmt sees the same operand (no redact-specific interface): fmt decides whether a panic may propagate
+}
+
+func c11Raises() []*c11Raise {
+	var nilmap map[string]int
+	var nilptr *c11Unexp
+	boom := &c11Raise{name: `panic("boom")`, f: func() { panic("boom") }}
+	rs := []*c11Raise{
+		boom,
+		{name: `panic("b‹o›m")`, f: func() { panic("b" + vS + "o" + vE + "m") }},
+		{name: `panic(errors.New("eboom"))`, f: func() { panic(errors.New("eboom")) }},
+		{name: `nil map assignment`, f: func() { nilmap["a"] = 1 }},
+		{name: `nil pointer dereference`, f: func() { nilptr.a = 1 }},
+		{name: `index out of range`, f: func() { var s []int; k := 5; _ = s[k] }},
+		{name: `panic(12345)`, f: func() { panic(12345) }},
+		{name: `panic((*c11PString)(nil))`, f: func() { panic((*c11PString)(nil)) }},
+		{name: `panic(struct{a int; b string}{1, "x"})`, f: func() { panic(struct {
+			a int
+			b string
+		}{1, "x"}) }},
+		{name: `panic(Safe("sboom"))`, f: func() { panic(Safe("sboom")) }, lenient: true},
+		{name: `panic(nil)`, f: func() { panic(nil) }, lenient: true},
+	}
+	rs = append(rs,
+		&c11Raise{name: `panic(&c11PString{boom})`, f: func() { panic(&c11PString{boom}) }, propagates: true},
+		&c11Raise{name: `panic(&c11PError{boom})`, f: func() { panic(&c11PError{boom}) }, propagates: true},
+	)
+	for _, r := range rs {
+		if r.propagates || r.lenient {
+			continue
+		}
+		pv, _ := c11Try(r.f)
+		r.text = fmt.Sprint(pv)
+	}
+	return rs
+}
+
+// c11Panicker builds the operands whose user method panics as described by r.
+type c11Panicker struct {
+	name    string
+	v       interface{}
+	nilRecv bool   // typed nil pointer: fmt prints <nil>
+	partial string // content written before the panic
+	redact  bool   // SafeFormat / SafeMessage (unknown to fmt)
+}
+
+func c11Panickers(r *c11Raise) []c11Panicker {
+	return []c11Panicker{
+		{name: "&c11PString{" + r.name + "}", v: &c11PString{r}},
+		{name: "c11VString{" + r.name + "}", v: c11VString{r}},
+		{name: "&c11PError{" + r.name + "}", v: &c11PError{r}},
+		{name: "&c11PFormat{" + r.name + "}", v: &c11PFormat{r}},
+		{name: "&c11PGoString{" + r.name + "}", v: &c11PGoString{r}},
+		{name: "&c11PSafeFormat{" + r.name + "}", v: &c11PSafeFormat{r}, redact: true},
+		{name: "&c11PSafeMessage{" + r.name + "}", v: &c11PSafeMessage{r}, redact: true},
+		{name: "&c11PFormatPartial{" + r.name + "}", v: &c11PFormatPartial{r}, partial: "fpfq"},
+		{name: "&c11PSafeFormatPartial{" + r.name + "}", v: &c11PSafeFormatPartial{r}, partial: "spup42-nq", redact: true},
+	}
+}
+
+func c11NilPanickers() []c11Panicker {
+	return []c11Panicker{
+		{name: "(*c11PString)(nil)", v: (*c11PString)(nil), nilRecv: true},
+		{name: "(*c11VString)(nil)", v: (*c11VString)(nil), nilRecv: true},
+		{name: "(*c11PError)(nil)", v: (*c11PError)(nil), nilRecv: true},
+		{name: "(*c11PFormat)(nil)", v: (*c11PFormat)(nil), nilRecv: true},
+		{name: "(*c11PGoString)(nil)", v: (*c11PGoString)(nil), nilRecv: true},
+		{name: "(*c11PSafeFormat)(nil)", v: (*c11PSafeFormat)(nil), nilRecv: true, redact: true},
+		{name: "(*c11PSafeMessage)(nil)", v: (*c11PSafeMessage)(nil), nilRecv: true, redact: true},
+		{name: "(*c11PFormatPartial)(nil)", v: (*c11PFormatPartial)(nil), nilRecv: true},
+		{name: "(*c11PSafeFormatPartial)(nil)", v: (*c11PSafeFormatPartial)(nil), nilRecv: true, redact: true},
+		{name: "(*c11ValErr)(nil)", v: (*c11ValErr)(nil), nilRecv: true},
+	}
+}
+
+func c11IntOps(all bool) []c11Op {
+	ops := []c11Op{
+		{"int(0)", int(0), true, true},
+		{"int(-7)", int(-7), true, true},
+		{"int64(math.MinInt64)", int64(math.MinInt64), true, true},
+		{"uint64(math.MaxUint64)", uint64(math.MaxUint64), true, true},
+		{"uint8(200)", uint8(200), true, true},
+		{"int32(0x2039)", int32(0x2039), true, true},
+	}
+	if !all {
+		return ops
+	}
+	return append(ops, []c11Op{
+		{"int(1)", int(1), true, true},
+		{"int(7)", int(7), true, true},
+		{"int(math.MaxInt64)", int(math.MaxInt64), true, true},
+		{"int(math.MinInt64)", int(math.MinInt64), true, true},
+		{"int8(math.MinInt8)", int8(math.MinInt8), true, true},
+		{"int8(math.MaxInt8)", int8(math.MaxInt8), true, true},
+		{"int16(math.MinInt16)", int16(math.MinInt16), true, true},
+		{"int16(math.MaxInt16)", int16(math.MaxInt16), true, true},
+		{"int32(math.MinInt32)", int32(math.MinInt32), true, true},
+		{"int32(math.MaxInt32)", int32(math.MaxInt32), true, true},
+		{"int64(math.MaxInt64)", int64(math.MaxInt64), true, true},
+		{"int64(-1)", int64(-1), true, true},
+		{"uint(0)", uint(0), true, true},
+		{"uint(math.MaxUint64)", uint(math.MaxUint64), true, true},
+		{"uint8(0)", uint8(0), true, true},
+		{"uint16(math.MaxUint16)", uint16(math.MaxUint16), true, true},
+		{"uint32(math.MaxUint32)", uint32(math.MaxUint32), true, true},
+		{"uint64(1<<63)", uint64(1 << 63), true, true},
+		{"uintptr(0)", uintptr(0), true, true},
+		{"uintptr(math.MaxUint64)", uintptr(math.MaxUint64), true, true},
+		{"rune('a')", rune('a'), true, true},
+		{"rune(0xD800)", rune(0xD800), true, true},
+		{"rune(0xDFFF)", rune(0xDFFF), true, true},
+		{"rune(-1)", rune(-1), true, true},
+		{"rune(0x110000)", rune(0x110000), true, true},
+		{"rune(0x10FFFF)", rune(0x10FFFF), true, true},
+		{"rune(0xFFFD)", rune(0xFFFD), true, true},
+		{"rune(0x203A)", rune(0x203A), true, true},
+		{"rune('\\n')", rune('\n'), true, true},
+		{"rune(0x7f)", rune(0x7f), true, true},
+		{"int64(0x10FFFF+1)", int64(0x110000), true, true},
+	}...)
+}
+
+func c11Ops() []c11Op {
+	ops := c11IntOps(true)
+	add := func(name string, v interface{}, fmtRef bool) { ops = append(ops, c11Op{name, v, false, fmtRef}) }
+	x := 5
+	px := &x
+	ch := make(chan int)
+	fn := func() {}
+	var nilErr error = (*c11Err)(nil)
+	var sb builder.StringBuilder
+	sb.SafeString("s")
+	sb.UnsafeString("u")
+	unexp := c11Unexp{a: 1, b: "b" + vS, c: &c11PString{nil}, d: px, e: &c11Err{"e"}, f: &c11PString{nil}, g: []byte("\xe2"), h: map[string]interface{}{"k": nil},
+		j: fn, k: ch, l: [2]byte{0xe2, 0x80}, m: "r", n: "n"}
+	nested := map[string]map[int][]interface{}{"a": {1: {nil, 2, "x", []byte(nil)}, -1: nil}, "": nil}
+	mixed := map[interface{}]interface{}{1: "a", "b": 2, math.NaN(): nil, math.Inf(1): 1.5, true: false, [2]int{1, 2}: struct{}{}, px: px, ch: ch,
+		struct{ a, b int }{1, 2}: nil, int8(3): uint8(3), complex(1, 2): complex64(3), (*int)(nil): nil, uintptr(1): 1, float32(2): 2, nil: nil}
+	nanmap := map[float64]int{math.NaN(): 1, math.Copysign(0, -1): 2}
+	exp := c11Exp{A: nil, D: &c11Exp{A: 1}, E: []interface{}{nil, (*int)(nil), c11Exp{}}, F: map[interface{}]interface{}{nil: nil}}
+	// floats / complex
+	add("float64(0)", float64(0), true)
+	add("math.Copysign(0,-1)", math.Copysign(0, -1), true)
+	add("float64(1.5)", 1.5, true)
+	add("math.NaN()", math.NaN(), true)
+	add("math.Inf(1)", math.Inf(1), true)
+	add("math.Inf(-1)", math.Inf(-1), true)
+	add("math.MaxFloat64", math.MaxFloat64, true)
+	add("-math.MaxFloat64", -math.MaxFloat64, true)
+	add("math.SmallestNonzeroFloat64", math.SmallestNonzeroFloat64, true)
+	add("float32(math.NaN())", float32(math.NaN()), true)
+	add("float32(math.Inf(-1))", float32(math.Inf(-1)), true)
+	add("float32(math.MaxFloat32)", float32(math.MaxFloat32), true)
+	add("complex(NaN,+Inf)", complex(math.NaN(), math.Inf(1)), true)
+	add("complex64(1+2i)", complex64(1+2i), true)
+	add("complex(-0,-Inf)", complex(math.Copysign(0, -1), math.Inf(-1)), true)
+	add("complex(MaxFloat64,-MaxFloat64)", complex(math.MaxFloat64, -math.MaxFloat64), true)
+	// bool, strings, bytes
+	add("true", true, true)
+	add("false", false, true)
+	add(`""`, "", true)
+	add(`"abc"`, "abc", true)
+	add(`"‹x›"`, vS+"x"+vE, true)
+	add(`"\xff\xfe"`, "\xff\xfe", true)
+	add(`"a\nb"`, "a\nb", true)
+	add(`"\xe2\x80"`, "\xe2\x80", true)
+	add(`strings.Repeat("é`+"`"+`", 100)`, strings.Repeat("é`", 100), true)
+	add("[]byte(nil)", []byte(nil), true)
+	add("[]byte{}", []byte{}, true)
+	add(`[]byte("ab")`, []byte("ab"), true)
+	add(`[]byte("›\xe2\n")`, []byte(vE+"\xe2\n"), true)
+	add("[0]byte{}", [0]byte{}, true)
+	add("[3]byte{0xe2,0x80,0xb9}", [3]byte{0xe2, 0x80, 0xb9}, true)
+	add("&[3]byte{'a',0xff,0}", &[3]byte{'a', 0xff, 0}, true)
+	add("[2]uint8{1,2}", [2]uint8{1, 2}, true)
+	add("[]int8{-1}", []int8{-1}, true)
+	add("[]string{\"a\",\"\"}", []string{"a", ""}, true)
+	// pointers, nil, typed nils
+	add("nil", nil, true)
+	add("&x", px, true)
+	add("&px", &px, true)
+	add("(*int)(nil)", (*int)(nil), true)
+	add("unsafe.Pointer(nil)", unsafe.Pointer(nil), true)
+	add("unsafe.Pointer(&x)", unsafe.Pointer(px), true)
+	add("map[string]int(nil)", map[string]int(nil), true)
+	add("[]int(nil)", []int(nil), true)
+	add("[]interface{}(nil)", []interface{}(nil), true)
+	add("(func())(nil)", (func())(nil), true)
+	add("(chan int)(nil)", (chan int)(nil), true)
+	add("func(){}", fn, true)
+	add("make(chan int)", ch, true)
+	add("error((*c11Err)(nil))", nilErr, true)
+	add("(*c11ValErr)(nil)", (*c11ValErr)(nil), true)
+	add("(*c11Unexp)(nil)", (*c11Unexp)(nil), true)
+	add("(*c11Exp)(nil)", (*c11Exp)(nil), true)
+	add("(*builder.StringBuilder)(nil)", (*builder.StringBuilder)(nil), false)
+	add("[]error{nil}", []error{nil}, true)
+	add("[]fmt.Stringer{nil,(*c11PString)(nil)}", []fmt.Stringer{nil, (*c11PString)(nil)}, true)
+	add("[]interface{}{nil,(*int)(nil),[]int(nil),map[int]int(nil),(func())(nil)}", []interface{}{nil, (*int)(nil), []int(nil), map[int]int(nil), (func())(nil)}, true)
+	// structs, maps
+	add("struct{}{}", struct{}{}, true)
+	add("c11Unexp{...}", unexp, true)
+	add("&c11Unexp{...}", &unexp, true)
+	add("c11Unexp{}", c11Unexp{}, true)
+	add("c11Exp{...}", exp, true)
+	add("&c11Exp{}", &c11Exp{}, true)
+	add("map[string]map[int][]interface{}{...}", nested, true)
+	add("map[interface{}]interface{}{mixed keys}", mixed, true)
+	add("map[float64]int{NaN:1,-0:2}", nanmap, true)
+	add("map[[2]int]struct{}{}", map[[2]int]struct{}{{1, 2}: {}}, true)
+	add("&map[int]int{1:2}", &map[int]int{1: 2}, true)
+	add("&[]int{1}", &[]int{1}, true)
+	// reflect.Value
+	add("reflect.Value{}", reflect.Value{}, true)
+	add("reflect.ValueOf(1)", reflect.ValueOf(1), true)
+	add(`reflect.ValueOf("s‹")`, reflect.ValueOf("s"+vS), true)
+	add("reflect.ValueOf(c11Unexp{...}).Field(2)", reflect.ValueOf(unexp).Field(2), true)
+	add("reflect.ValueOf(c11Unexp{...}).Field(5)", reflect.ValueOf(unexp).Field(5), true)
+	add("reflect.ValueOf(c11Unexp{...}).Field(11)", reflect.ValueOf(unexp).Field(11), false)
+	add("reflect.ValueOf(c11Unexp{...})", reflect.ValueOf(unexp), true)
+	add("reflect.ValueOf(&x).Elem()", reflect.ValueOf(px).Elem(), true)
+	add("reflect.ValueOf(map[int]int(nil))", reflect.ValueOf(map[int]int(nil)), true)
+	add("reflect.ValueOf((*int)(nil))", reflect.ValueOf((*int)(nil)), true)
+	add("reflect.ValueOf(&exp).Elem().Field(0)", reflect.ValueOf(&exp).Elem().Field(0), true)
+	add(`reflect.ValueOf(RedactableString("‹r›"))`, reflect.ValueOf(RedactableString(vS+"r"+vE)), false)
+	add(`reflect.ValueOf(RedactableBytes(nil))`, reflect.ValueOf(RedactableBytes(nil)), false)
+	add("reflect.ValueOf(Safe(1))", reflect.ValueOf(Safe(1)), false)
+	add("reflect.ValueOf(Unsafe(nil))", reflect.ValueOf(Unsafe(nil)), false)
+	add("reflect.ValueOf(reflect.ValueOf(1))", reflect.ValueOf(reflect.ValueOf(1)), true)
+	// errors
+	add(`errors.New("e‹")`, errors.New("e"+vS), true)
+	add(`fmt.Errorf("w: %w", io.EOF)`, fmt.Errorf("w: %w", io.EOF), true)
+	add(`&c11Err{"x"}`, &c11Err{"x"}, true)
+	add(`c11ValErr{""}`, c11ValErr{""}, true)
+	// redact's own types
+	add(`RedactableString("a‹b›c")`, RedactableString("a"+vS+"b"+vE+"c"), false)
+	add(`RedactableString("")`, RedactableString(""), false)
+	add(`RedactableBytes("‹b›")`, RedactableBytes(vS+"b"+vE), false)
+	add(`RedactableBytes(nil)`, RedactableBytes(nil), false)
+	add(`SafeString("s›")`, SafeString("s"+vE), false)
+	add(`SafeInt(math.MinInt64)`, SafeInt(math.MinInt64), false)
+	add(`SafeUint(math.MaxUint64)`, SafeUint(math.MaxUint64), false)
+	add(`SafeFloat(math.NaN())`, SafeFloat(math.NaN()), false)
+	add(`SafeRune(0xDFFF)`, SafeRune(0xDFFF), false)
+	add(`SafeRune(-1)`, SafeRune(-1), false)
+	add(`i.SafeByte(0xe2)`, i.SafeByte(0xe2), false)
+	add(`i.SafeBytes(nil)`, i.SafeBytes(nil), false)
+	add(`i.SafeBytes("\xe2\x80")`, i.SafeBytes("\xe2\x80"), false)
+	add(`c11SafeInt(-5)`, c11SafeInt(-5), false)
+	add(`Safe(nil)`, Safe(nil), false)
+	add(`Unsafe(nil)`, Unsafe(nil), false)
+	add(`Safe(int64(math.MinInt64))`, Safe(int64(math.MinInt64)), false)
+	add(`Unsafe(SafeInt(-1))`, Unsafe(SafeInt(-1)), false)
+	add(`Safe(Unsafe(Safe("n")))`, Safe(Unsafe(Safe("n"))), false)
+	add(`Unsafe(Safe(Unsafe(1.5)))`, Unsafe(Safe(Unsafe(1.5))), false)
+	add(`Safe(c11Unexp{...})`, Safe(unexp), false)
+	add(`Unsafe(map[interface{}]interface{}{mixed keys})`, Unsafe(mixed), false)
+	add(`Safe((*c11PString)(nil))`, Safe((*c11PString)(nil)), false)
+	add(`[]interface{}{Safe(1),Unsafe("u"),RedactableString("‹r›"),SafeRune(-1)}`, []interface{}{Safe(1), Unsafe("u"), RedactableString(vS + "r" + vE), SafeRune(-1)}, false)
+	add(`struct{S i.SafeValue; U interface{}}{Safe(nil), Unsafe(nil)}`, struct {
+		S i.SafeValue
+		U interface{}
+	}{Safe(nil), Unsafe(nil)}, false)
+	add(`StringBuilder{"s‹u›"}`, sb, false)
+	add(`&StringBuilder{"s‹u›"}`, &sb, false)
+	add(`StringBuilder{}`, builder.StringBuilder{}, false)
+	add(`c11SFAll{}`, c11SFAll{}, false)
+	add(`&c11SFAll{}`, &c11SFAll{}, false)
+	add(`c11FmtAll{}`, c11FmtAll{}, false)
+	add(`Safe(c11FmtAll{})`, Safe(c11FmtAll{}), false)
+	add(`Unsafe(c11SFAll{})`, Unsafe(c11SFAll{}), false)
+	add(`c11SFOuter{c11SFAll{}}`, c11SFOuter{c11SFAll{}}, false)
+	return ops
+}
+
+// ---- calling the printing entry points --------------------------------------------------------
+
+const (
+	c11EpSprintf = iota
+	c11EpBuilder
+	c11EpSprintfn
+	c11EpErrorf
+	c11EpFprintf
+	c11EpCount
+)
+
+var c11EpNames = [...]string{"Sprintf", "StringBuilder{SafeString(\"pre\"); UnsafeString(\"u\"); Printf", "Sprintfn(w.SafeString(\"pre\"); w.UnsafeString(\"u\"); w.Printf", "HelperForErrorf", "Fprintf(&bytes.Buffer, "}
+
+// c11Print formats through entry point ep. pre/post are the contents written around the call
+// (without markers).
+func c11Print(ep int, format string, args []interface{}) (out, pre, post string) {
+	switch ep {
+	case c11EpBuilder:
+		var b builder.StringBuilder
+		b.SafeString("pre")
+		b.UnsafeString("u")
+		b.Printf(format, args...)
+		b.SafeString("post")
+		b.UnsafeString("w")
+		return string(b.RedactableString()), "preu", "postw"
+	case c11EpSprintfn:
+		return string(Sprintfn(func(w SafePrinter) {
+			w.SafeString("pre")
+			w.UnsafeString("u")
+			w.Printf(format, args...)
+			w.UnsafeString("w")
+			w.SafeString("post")
+		})), "preu", "wpost"
+	case c11EpErrorf:
+		s, _ := HelperForErrorf(format, args...)
+		return string(s), "", ""
+	case c11EpFprintf:
+		var b bytes.Buffer
+		b.WriteString("pre")
+		_, _ = Fprintf(&b, format, args...)
+		return b.String(), "pre", ""
+	}
+	return string(Sprintf(format, args...)), "", ""
+}
+
+func c11CallText(ep int, format string, argText string) string {
+	s := c11EpNames[ep]
+	if !strings.HasSuffix(s, " ") {
+		s += "("
+	}
+	s += fmt.Sprintf("%q", format)
+	if argText != "" {
+		s += ", " + argText
+	}
+	s += ")"
+	if ep == c11EpBuilder || ep == c11EpSprintfn {
+		s += "; ...}"
+	}
+	return s
+}
+
+// c11Run runs one formatting call (format is "A|" + directive + "|Z") and checks the part of the
+// statement that holds for every call: no panic (unless mayPropagate, or fmt panics on the same call
+// and fmtRef says fmt is a reference for it) and the text around the directive is intact.
+// It returns the output and whether the call returned normally.
+func c11Run(rep *c11Rep, ep int, format string, args []interface{}, argText string, fmtRef, mayPropagate bool) (string, bool) {
+	var out, pre, post string
+	pv, panicked := c11Try(func() { out, pre, post = c11Print(ep, format, args) })
+	if panicked {
+		if mayPropagate {
+			return "", false
+		}
+		if fmtRef {
+			if _, fp := c11Try(func() { _ = fmt.Sprintf(format, args...) }); fp {
+				return "", false
+			}
+		}
+		rep.fail(c11CallText(ep, format, argText), "panic: "+fmt.Sprint(pv), "the call panicked (fmt does not panic on the same call)")
+		return "", false
+	}
+	d := c11DelMarkers(out)
+	if !strings.HasPrefix(d, pre+"A|") {
+		rep.fail(c11CallText(ep, format, argText), out, "text written before the directive is lost or altered")
+	} else if !strings.HasSuffix(d, post) || !(strings.HasSuffix(d, "|Z"+post) || strings.Contains(d, "|Z%!(EXTRA ")) {
+		rep.fail(c11CallText(ep, format, argText), out, "text written after the directive is lost or altered")
+	}
+	return out, true
+}
+
+func c11FlagSets(all bool) []string {
+	var fs []string
+	const flags = "+-# 0"
+	for m := 0; m < 32; m++ {
+		s := ""
+		for k := 0; k < 5; k++ {
+			if m&(1<<uint(k)) != 0 {
+				s += flags[k : k+1]
+			}
+		}
+		fs = append(fs, s)
+	}
+	if !all {
+		return []string{"", "+", "-", "#", " ", "0", "+#0", "+-# 0", "#0", "-0", " 0", "+ "}
+	}
+	return append(fs, "0-", "00", "##", "0+#")
+}
+
+func c11Verbs() []string {
+	var vs []string
+	for c := 'a'; c <= 'z'; c++ {
+		vs = append(vs, string(c))
+	}
+	for c := 'A'; c <= 'Z'; c++ {
+		vs = append(vs, string(c))
+	}
+	return append(vs, "%", "!", "(", ")", "_", "\n", "\x00", "\x7f", ",", "é", vS, vE, "世", "\U0010FFFF", "�",
+		"\xff", "\xe2", "\xe2\x80", "\xc0\x80", "\xed\xa0\x80", "\xf4\x90\x80\x80", "")
+}
+
+// width / precision specifications: text in the format plus the operand consumed by '*'.
+type c11WP struct {
+	text string
+	arg  []interface{}
+	name string
+}
+
+func c11Widths(level int) []c11WP {
+	w := []c11WP{{"", nil, ""}, {"7", nil, ""}, {"100", nil, ""}, {"*", []interface{}{-70}, "-70, "}}
+	if level >= 1 {
+		w = append(w, []c11WP{{"1", nil, ""}, {"64", nil, ""}, {"69", nil, ""}, {"1000", nil, ""},
+			{"*", []interface{}{5}, "5, "}, {"*", []interface{}{"x"}, "\"x\", "}, {"*", []interface{}{int64(1) << 40}, "int64(1)<<40, "}}...)
+	}
+	if level >= 2 {
+		w = append(w, []c11WP{{"65", nil, ""}, {"66", nil, ""}, {"67", nil, ""}, {"68", nil, ""}, {"70", nil, ""}, {"3000", nil, ""}, {"1000000", nil, ""}, {"1000001", nil, ""},
+			{"*", []interface{}{-1000}, "-1000, "}, {"*", []interface{}{1000000}, "1000000, "}, {"*", []interface{}{1000001}, "1000001, "},
+			{"*", []interface{}{nil}, "nil, "}, {"*", []interface{}{uint8(200)}, "uint8(200), "}, {"*", []interface{}{uint64(math.MaxUint64)}, "uint64(math.MaxUint64), "},
+			{"*", []interface{}{math.MinInt64}, "math.MinInt64, "}, {"*", []interface{}{int8(-128)}, "int8(-128), "}, {"*", []interface{}{1.5}, "1.5, "}}...)
+	}
+	return w
+}
+
+func c11Precs(level int) []c11WP {
+	p := []c11WP{{"", nil, ""}, {".", nil, ""}, {".0", nil, ""}, {".7", nil, ""}, {".100", nil, ""}, {".*", []interface{}{70}, "70, "}}
+	if level >= 1 {
+		p = append(p, []c11WP{{".1", nil, ""}, {".64", nil, ""}, {".1000", nil, ""}, {".*", []interface{}{-5}, "-5, "}, {".*", []interface{}{"x"}, "\"x\", "}}...)
+	}
+	if level >= 2 {
+		p = append(p, []c11WP{{".65", nil, ""}, {".66", nil, ""}, {".67", nil, ""}, {".68", nil, ""}, {".3000", nil, ""}, {".1000000", nil, ""}, {".1000001", nil, ""},
+			{".*", []interface{}{1000}, "1000, "}, {".*", []interface{}{int64(1) << 40}, "int64(1)<<40, "}, {".*", []interface{}{nil}, "nil, "},
+			{".*", []interface{}{uint16(300)}, "uint16(300), "}, {".*", []interface{}{0}, "0, "}}...)
+	}
+	return p
+}
+
+// sweep A: every verb x flag subset x width/precision x operand
+func c11SweepDirectives(rep *c11Rep) {
+	thorough := c11Thorough()
+	verbs, flags, ops := c11Verbs(), c11FlagSets(thorough), c11Ops()
+	level := 0
+	widths, precs := c11Widths(0), c11Precs(0)
+	if !thorough {
+		widths = []c11WP{widths[0], widths[2], widths[3]}
+		precs = []c11WP{precs[0], precs[1], precs[4]}
+	}
+	cases, nontrivial := 0, 0
+	for _, verb := range verbs {
+		for _, fl := range flags {
+			for wi, w := range widths {
+				for pi, p := range precs {
+					format := "A|%" + fl + w.text + p.text + verb + "|Z"
+					for _, op := range ops {
+						if rep.full() {
+							return
+						}
+						args := append(append(append([]interface{}(nil), w.arg...), p.arg...), op.v)
+						argText := w.name + p.name + op.name
+						eps := []int{c11EpSprintf}
+						if wi == 0 && pi == 0 {
+							eps = []int{c11EpSprintf, c11EpBuilder, c11EpSprintfn, c11EpErrorf, c11EpFprintf}
+						}
+						for _, ep := range eps {
+							cases++
+							out, ok := c11Run(rep, ep, format, args, argText, op.fmtRef, false)
+							if ok && !strings.Contains(out, "%!") {
+								nontrivial++
+							}
+						}
+					}
+				}
+			}
+		}
+	}
+	_ = level
+	c11Bounded("no panic and text around the directive intact, for every verb x flag subset x width/precision x operand kind (Sprintf; also StringBuilder.Printf, SafePrinter.Printf, HelperForErrorf, Fprintf when no width/precision)",
+		cases, nontrivial, "the verb is valid for the operand: the output has no %!verb(...) report",
+		fmt.Sprintf("%d verbs (all ASCII letters, %%, !, punctuation, control, multi-byte, invalid UTF-8, none) x %d flag strings x %d widths x %d precisions x %d operands", len(verbs), len(flags), len(widths), len(precs), len(ops)),
+		rep.fails == 0)
+}
+
+// sweep B: integer and rune formatting with wide widths and precisions; the rendering is compared
+// with fmt's (the statement's "rendered": nothing is lost or cut).
+func c11SweepIntegers(rep *c11Rep) {
+	thorough := c11Thorough()
+	verbs := []string{"d", "x", "X", "o", "O", "b", "U", "c", "q", "v"}
+	flags := c11FlagSets(true)[:32]
+	ops := c11IntOps(thorough)
+	widths, precs := c11Widths(1), c11Precs(1)
+	if thorough {
+		widths, precs = c11Widths(2), c11Precs(2)
+	}
+	cases, nontrivial := 0, 0
+	for _, verb := range verbs {
+		for _, fl := range flags {
+			for _, w := range widths {
+				for _, p := range precs {
+					format := "A|%" + fl + w.text + p.text + verb + "|Z"
+					if len(w.text)+len(p.text) > 12 {
+						continue // width and precision of a million each: 2 MB per call, nothing new
+					}
+					for k, op := range ops {
+						if rep.full() {
+							return
+						}
+						if (len(w.text) > 6 || len(p.text) > 7) && k > 3 {
+							break // a million columns: a few operands only
+						}
+						args := append(append(append([]interface{}(nil), w.arg...), p.arg...), op.v)
+						argText := w.name + p.name + op.name
+						cases++
+						ep := c11EpSprintf
+						if cases%7 == 0 {
+							ep = c11EpBuilder
+						}
+						out, ok := c11Run(rep, ep, format, args, argText, true, false)
+						if !ok {
+							continue
+						}
+						want := c11EscMarkers(fmt.Sprintf(format, args...))
+						got := c11DelMarkers(out)
+						if ep == c11EpBuilder {
+							want = "preu" + want + "postw"
+						}
+						if got != want {
+							rep.fail(c11CallText(ep, format, argText), out, "the rendering differs from fmt's for a plain integer operand (digits or padding lost); fmt gives "+c11Short(want))
+						}
+						if len(out) > 68 {
+							nontrivial++
+						}
+					}
+				}
+			}
+		}
+	}
+	c11Bounded("integer/rune verbs with large width and precision: no panic, text intact, rendering equal to fmt's after removing the delimiters",
+		cases, nontrivial, "the output is longer than the 68-byte fixed scratch buffer of the integer formatter",
+		fmt.Sprintf("verbs d x X o O b U c q v x 32 flag subsets x %d widths (0..3000, 1e6, '*' with int/negative/huge/non-int operands) x %d precisions x %d integer operands (all sizes, min/max, invalid runes)", len(widths), len(precs), len(ops)),
+		rep.fails == 0)
+}
+
+func c11Short(s string) string {
+	if len(s) > 200 {
+		return fmt.Sprintf("%q...(%d bytes)", s[:200], len(s))
+	}
+	return fmt.Sprintf("%q", s)
+}
+
+func TestVerifBoundedC11(t *testing.T) {
+	rep := &c11Rep{t: t}
+	for _, sweep := range []func(*c11Rep){c11SweepDirectives, c11SweepIntegers} {
+		if rep.full() {
+			break
+		}
+		sweep(rep)
 	}
 }
